@@ -28,12 +28,13 @@ class TapMixin:
     """Alternates E5 batch tasks with E1 tap tasks."""
     TAP_CLASS = None
     ENGINE = 'mixed'
+    TAP_SLOTS = (2,)         # which of three consecutive tasks are taps
 
     def tasks(self, base_seed, tier):
         i = 0
         gen = super().tasks(base_seed, tier)
         while True:
-            if i % 3 == 2:
+            if i % 3 in self.TAP_SLOTS:
                 yield {'property': self.ID, 'tier': tier, 'mode': 'explore',
                        'seed': derive_seed(base_seed, self.ID, 'tap', i),
                        'part': 'tap', 'name': '%s#tap%d' % (self.ID, i),
@@ -427,6 +428,48 @@ class QueueTap(E1Prop):
                         'dt': 1}
             return orig(w_)
         gen.next = nxt
+
+    def next_op(self, w, rng, step, nsteps):
+        if step == 0:
+            self.script = []
+            if rng.random() < 0.5:
+                # story: two or three PRs on drawn destinations (hotfix and
+                # stabilization branches included) enter the queue; CI then
+                # turns the queue commits of a drawn subset green and the
+                # others red, and the queue is evaluated
+                dests = ops.dest_branches(w.cfg)
+                n = rng.choice([2, 2, 3])
+                picks = [rng.choice(dests) for i in range(n)]
+                if len(set(picks)) == 1 and len(dests) > 1:
+                    picks[-1] = rng.choice([d for d in dests
+                                            if d != picks[0]])
+                seq = []
+                for i, d in enumerate(picks):
+                    seq.append({'op': 'open_pr', 'actor': rng.choice(
+                        ['alice', 'bob']), 'src': 'bugfix/TEST-%d' % (
+                        950 + i), 'dst': d, 'kind': 'new'})
+                for i in range(n):
+                    seq.append({'op': 'eval', 'p': i})
+                seq.append({'op': 'ci_green_all', 'which': ['src', 'w']})
+                order = list(range(n))
+                rng.shuffle(order)
+                for i in order:
+                    seq.append({'op': 'eval', 'p': i})
+                greens = [i for i in range(n) if rng.random() < 0.55]
+                for i in range(n):
+                    st = 'SUCCESSFUL' if i in greens else rng.choice(
+                        ['FAILED', 'FAILED', 'INPROGRESS', 'STOPPED'])
+                    for vi in range(5):
+                        seq.append({'op': 'ci', 'state': st,
+                                    'target': ['qw', i, vi],
+                                    'event_anyway': True})
+                seq.append({'op': 'deliver_all'})
+                for o in seq:
+                    o['dt'] = rng.choice([1, 5, 30])
+                self.script = seq
+        if getattr(self, 'script', None):
+            return self.script.pop(0)
+        return self.gen.next(w)
 
     def queue_state(self, w, refs):
         """PR -> {version: tip} from q/w refs."""
